@@ -2,7 +2,7 @@
 From Coq Require Import ZArith QArith List Permutation.
 From Coq Require Import Floats.PrimFloat.
 From PAFCommon Require Import PyFloat PyNum Lists.
-From PAFC16 Require Import Gen Lib Machine Model Proofs Proofs2 Proofs3.
+From PAFC16 Require Import Gen Lib Machine Model Proofs Proofs2 Proofs3 Proofs4.
 Import ListNotations.
 
 (* n^d cells, each with d coordinates (exact arithmetic, every d and n >= 1) *)
@@ -198,6 +198,39 @@ Theorem C16_cache_by_dimension_refuted : exists (n0 : Z) (ops : list (@op Z (lis
   gs_run_Q ByDim n0 ops <> gs_expected_Q n0 ops.
 Proof. exact gs_by_dim_refuted_Q. Qed.
 
+(* sharing patterns: the grid has one dimension per DISTINCT prior of the perturbation model (a prior shared by
+   several attributes counts once, fixed attributes count for nothing); Sensitivity.shape has that many entries and
+   IS the shape of the lattice Sensitivity._lists enumerates -- for an int and for a per-dimension tuple step count *)
+Theorem C16_distinct_priors : forall slots : list (option Z),
+  NoDup (distinct_priors slots) /\ forall i, In i (distinct_priors slots) <-> In (Some i) slots.
+Proof. exact distinct_priors_spec. Qed.
+
+Theorem C16_sensitivity_shape_is_lattice : forall (st : steps) (slots : list (option Z)), steps_ok st slots ->
+  length (sens_shape st slots) = prior_count slots
+  /\ sens_model_lists_Q st slots = sens_lists_Q (sens_shape st slots)
+  /\ length (sens_model_lists_Q st slots) = fold_right Nat.mul 1%nat (map Z.to_nat (sens_shape st slots))
+  /\ (forall row, In row (sens_model_lists_Q st slots) -> length row = prior_count slots).
+Proof. exact sens_shape_lattice. Qed.
+
+Theorem C16_shared_prior_fewer_dimensions : forall slots : list (option Z),
+  (prior_count slots <= length (slot_ids slots))%nat
+  /\ (~ NoDup (slot_ids slots) -> (prior_count slots < length (slot_ids slots))%nat).
+Proof. exact (fun slots => conj (prior_count_le slots) (prior_count_shared slots)). Qed.
+
+(* a shape with one entry per attribute holding a prior is not the lattice's shape once a prior is shared *)
+Theorem C16_shape_per_attribute_refuted : forall (n : Z) (slots : list (option Z)), ~ NoDup (slot_ids slots) ->
+  length (sens_shape_per_attribute (StepsInt n) slots) <> prior_count slots.
+Proof. exact per_attribute_shape_wrong. Qed.
+
+(* grid search: grid priors named twice (one object under two paths) give one dimension; shape, n^d and the
+   length of every lattice point use the same d *)
+Theorem C16_grid_distinct_dimensions : forall (n : Z) (ids : list Z), (1 <= n)%Z ->
+  NoDup (zdedup ids) /\ (forall i, In i (zdedup ids) <-> In i ids)
+  /\ length (gs_shape n ids) = gs_dimensions ids
+  /\ length (grid_lists_Q (gs_dimensions ids) n) = (Z.to_nat n ^ gs_dimensions ids)%nat
+  /\ (forall row, In row (grid_lists_Q (gs_dimensions ids) n) -> length row = gs_dimensions ids).
+Proof. exact gs_shape_lattice. Qed.
+
 Print Assumptions C16_count.
 Print Assumptions C16_tiling_contiguous.
 Print Assumptions C16_kth_any_order.
@@ -212,3 +245,8 @@ Print Assumptions C16_history_independent.
 Print Assumptions C16_history_last_cells.
 Print Assumptions C16_sensitivity_history_independent.
 Print Assumptions C16_cache_by_dimension_refuted.
+Print Assumptions C16_distinct_priors.
+Print Assumptions C16_sensitivity_shape_is_lattice.
+Print Assumptions C16_shared_prior_fewer_dimensions.
+Print Assumptions C16_shape_per_attribute_refuted.
+Print Assumptions C16_grid_distinct_dimensions.
